@@ -38,6 +38,9 @@ func markerPolygon(idx, part int) geom.Polygon {
 }
 
 func resultPolygon(id uint64) geom.Polygon {
+	if id&nilPolyFlag != 0 {
+		return nil // a computed result that happens to be a nil slice
+	}
 	return geom.Polygon{{{float64(id), 0.5}}}
 }
 
@@ -134,6 +137,7 @@ func (s *fakeSource) ReadFeatures(out chan<- processing.Feature) {
 }
 
 type fakeTarget struct {
+	nilFor   func(featID uint64) (uint64, bool) // the flagged id this target expects as a nil polygon for that feature
 	tm       int
 	log      *eventLog
 	d        delayer
@@ -144,7 +148,7 @@ type fakeTarget struct {
 	done     atomic.Bool
 }
 
-func digestGeometry(g geom.Geometry, orig *fakeFeature) string {
+func digestGeometry(g geom.Geometry, orig *fakeFeature, nilID func() (uint64, bool)) string {
 	if orig != nil {
 		if orig.geo == nil && g == nil {
 			return "orig"
@@ -161,6 +165,12 @@ func digestGeometry(g geom.Geometry, orig *fakeFeature) string {
 	}
 	switch v := g.(type) {
 	case geom.Polygon:
+		if v == nil {
+			if id, ok := nilID(); ok {
+				return fmt.Sprintf("p%d", id)
+			}
+			return "alien:nil polygon"
+		}
 		if id, ok := polyID(v); ok {
 			return fmt.Sprintf("p%d", id)
 		}
@@ -201,7 +211,12 @@ func (t *fakeTarget) WriteFeatures(in <-chan processing.Feature) {
 		} else {
 			e.ID = orig.id
 		}
-		e.G = digestGeometry(ft.Geometry(), orig)
+		e.G = digestGeometry(ft.Geometry(), orig, func() (uint64, bool) {
+			if orig == nil || t.nilFor == nil {
+				return 0, false
+			}
+			return t.nilFor(orig.id)
+		})
 		if !t.logLate {
 			t.log.add(e)
 		}
@@ -260,6 +275,17 @@ func runScenario(sc Scenario, watchdog time.Duration) Result {
 	for _, t := range sc.Targets {
 		ft := &fakeTarget{tm: t, log: evlog, d: delayer{rand.New(rand.NewSource(r.Int63())), sc.Delays.Target[t]},
 			finishUs: sc.Delays.Finish[t], logLate: sc.Delays.LogLate, byCols: byCols}
+		tmKey := fmt.Sprint(t)
+		ft.nilFor = func(featID uint64) (uint64, bool) {
+			for _, f := range sc.Features {
+				if f.ID == featID && f.Kind == "polygon" && len(f.Parts) == 1 {
+					if ids := f.Parts[0][tmKey]; len(ids) == 1 && ids[0]&nilPolyFlag != 0 {
+						return ids[0], true
+					}
+				}
+			}
+			return 0, false
+		}
 		fts[t] = ft
 		targets[t] = ft
 	}
